@@ -7,6 +7,7 @@ rejected and interrupted calls as injected faults.  After every operation the
 invariants of DESIGN.md section 3 (C20) are checked against a history-free
 reference model (a fresh instance fitted once to the last completed dataset).
 """
+import copy
 import pickle
 import sys
 import warnings
@@ -417,15 +418,41 @@ class History:
             ok = ok or dd <= 1e-7
         if not ok:
             raise Violation("history-dependent", f"{desc}: differs from the same call on a fresh object fitted to the last dataset (rel. diff {dd:.3g}); history {self.short_history(live)}")
+        pristine = copy.deepcopy(res)
+        if self.scribble(res):
+            # the caller overwrote what it was given back: the estimator must not have handed out its own state
+            again = self.must(desc + " (again)", thunk)
+            ok, dd = same_result(again, pristine, rtol=RTOL_REPEAT)
+            if not ok:
+                raise Violation("not-repeatable", f"{desc}: after the caller overwrote the arrays it had been given back, the same call returned a different result (rel. diff {dd:.3g})")
+            res = again
         self.u.remember(desc, res)
-        self.last_query = (desc, thunk, res, obj)
+        self.last_query = (desc, thunk, pristine, obj)
         self.after(desc)
+        self.compare_model(live, desc + " (after the caller overwrote the returned arrays)")
 
     def check_rng_untouched(self, state, where):
         now = np.random.get_state()
         if not (state[0] == now[0] and np.array_equal(state[1], now[1]) and state[2:] == now[2:]):
             # not forbidden by the statement (only repeatability is): recorded, not judged
             self.probe("global_rng_advanced_by_seeded_or_pure_call")
+
+    def scribble(self, result):
+        """The caller overwrites, in place, the arrays a call returned to it (they are the caller's now)."""
+        n = 0
+        for a in arrays_of(result):
+            if isinstance(a, np.ndarray) and a.flags.writeable and a.size and not any(a is g[0] or np.shares_memory(a, g[0]) for g in self.u.guard.items):
+                if a.dtype.kind == "b":
+                    a[...] = ~a
+                elif a.dtype.kind in "fiu":
+                    a[...] = 77
+                else:
+                    continue
+                n += 1
+        if n:
+            self.probe("caller_overwrote_returned_arrays")
+            self.u.results = []  # the remembered results were just changed on purpose
+        return n
 
     def op_repeat(self):
         if self.last_query is None:
@@ -569,9 +596,25 @@ class History:
         pix = bool(self.ops % 2)
         interruptible = name != "project_grid"
         snap_grid = []
+        # regions, spacings, sizes, centres and points are argument arrays too: half of the calls pass them as
+        # numpy arrays (guarded, read-only or writable) instead of tuples/lists
+        as_arrays = bool(self.tape.draw(2, "fn.array_args"))
+        ro = bool(self.tape.draw(3, "fn.array_args_ro"))
+
+        def A(values):
+            return g.add(np.array(values, dtype=float), readonly=ro) if as_arrays else values
+
+        region = A(region)
 
         def make(c, d, k):
             """k = 0 for the real call, 1 for the variant (used where an argument is not an array)."""
+            sub_region = A((20.0, 70.0, -30.0, 20.0))
+            pad = A((5.0 + k, 10.0))
+            spacing2 = A((20.0, 25.0))
+            point1, point2 = A((1.0 + k, 2.0)), A((9.0, -4.0))
+            center, sizes = A((50.0, -10.0)), A([30.0, 60.0])
+            # a geographic region whose west/east bounds move when brought to the coordinates' convention
+            lon_region = A(self.lon_regions[k])
             if name == "variance_to_weights":
                 var = g.add(np.where(np.arange(d.size) % 5 == 0, np.nan, np.abs(np.ravel(d)) * 0.01 + 1e-3).reshape(d.shape))
                 return lambda: vd.variance_to_weights(var)
@@ -582,22 +625,26 @@ class History:
             if name == "block_split":
                 return lambda: vd.block_split(c, spacing=25.0)
             if name == "inside":
-                return lambda: vd.inside(c, (20.0, 70.0, -30.0, 20.0))
+                return lambda: vd.inside(c, sub_region)
             if name == "get_region":
                 return lambda: vd.get_region(c)
             if name == "pad_region":
-                return lambda: vd.pad_region(region, (5 + k, 10))
+                return lambda: vd.pad_region(region, pad)
             if name == "grid_coordinates":
-                return lambda: vd.grid_coordinates(region, spacing=(20, 25), extra_coords=3.0 + k, pixel_register=pix)
+                return lambda: vd.grid_coordinates(region, spacing=spacing2, extra_coords=3.0 + k, pixel_register=pix)
+            if name == "line_coordinates":
+                return lambda: vd.line_coordinates(-3.0, 12.0 + k, spacing=2.5, pixel_register=pix)
+            if name == "grid_coordinates_1d":
+                return lambda: vd.grid_coordinates(region, shape=(5, 6 + k), meshgrid=False)
             if name == "profile_coordinates":
-                return lambda: vd.profile_coordinates((1.0 + k, 2.0), (9.0, -4.0), size=7)
+                return lambda: vd.profile_coordinates(point1, point2, size=7)
             if name == "rolling_window":
                 return lambda: vd.rolling_window(c, size=50.0, spacing=25.0, region=region)
             if name == "expanding_window":
-                return lambda: vd.expanding_window(c, center=(50.0, -10.0), sizes=[30.0, 60.0])
+                return lambda: vd.expanding_window(c, center=center, sizes=sizes)
             if name == "longitude_continuity":
-                lon = g.add(c[0] * 3.6)
-                return lambda: vd.longitude_continuity((lon, c[1]), (0.0, 360.0, -60.0, 40.0))
+                lon = g.add(c[0] * 3.6 - (180.0 if self.lon_shift else 0.0))
+                return lambda: vd.longitude_continuity((lon, c[1]), lon_region)
             if name == "median_distance":
                 return lambda: vd.median_distance(c, k_nearest=2)
             if name == "distance_mask":
@@ -633,6 +680,8 @@ class History:
                 return lambda: check_fit_input(c, d, w)
             raise HarnessError(name)
 
+        self.lon_shift = bool(self.tape.draw(2, "fn.lon_shift"))
+        self.lon_regions = [(-160.0, -150.0, -60.0, 40.0), (-170.0, -20.0, -60.0, 40.0)] if self.tape.draw(2, "fn.lon_region") else [(0.0, 360.0, -60.0, 40.0), (-180.0, 180.0, -60.0, 40.0)]
         thunk = make(ds.coordinates, ds.data[0], 0)
         variant = make(alt_c, alt_d, 1)
         desc = f"{name}(D{u.datasets[1].index(ds)})"
@@ -654,12 +703,20 @@ class History:
         first = self.must(desc, thunk)
         self.check_rng_untouched(state, desc)
         self.u.remember(desc, first)
+        pristine = copy.deepcopy(first)
         self.must(desc + " [same-shape variant]", variant)
         self.u.check_aliasing(desc + " followed by the same call on other same-shape arguments")
+        scribbled = self.scribble(first)
         again = self.must(desc, thunk)
-        ok, dd = same_result(again, first, rtol=RTOL_REPEAT)
+        ok, dd = same_result(again, pristine, rtol=RTOL_REPEAT)
         if not ok:
-            raise Violation("not-repeatable", f"{desc}: calling it again with the same arguments (after a call with other arguments) gave a different result (rel. diff {dd:.3g})")
+            raise Violation(
+                "not-repeatable",
+                f"{desc}: calling it again with the same arguments (after a call with other arguments"
+                + (" and after the caller overwrote the arrays it had been given back" if scribbled else "")
+                + f") gave a different result (rel. diff {dd:.3g})",
+            )
+        first = again
         for arr, snap in snap_grid:
             if not np.array_equal(snap, arr.values):
                 raise Violation("argument-array-modified", f"{desc}: the grid passed in was modified")
@@ -770,7 +827,7 @@ class History:
 
 
 FUNCTIONS = [
-    "variance_to_weights", "variance_to_weights_tuple", "block_split", "inside", "get_region", "pad_region", "grid_coordinates",
+    "line_coordinates", "grid_coordinates_1d", "variance_to_weights", "variance_to_weights_tuple", "block_split", "inside", "get_region", "pad_region", "grid_coordinates",
     "profile_coordinates", "rolling_window", "expanding_window", "longitude_continuity", "median_distance", "distance_mask",
     "convexhull_mask", "make_xarray_grid", "grid_to_table", "maxabs", "project_region", "project_grid", "blockreduce", "blockmean",
     "blockmean_weights", "blockmean_uncertainty", "checkerboard", "check_fit_input",
